@@ -3,7 +3,7 @@ import FimVerif.Model.Validate
 import FimVerif.Proofs.Lemmas.C10Dec
 /-! Driver for C10: runs `Validate.validate` / `Validate.connect` on request lines.
 
-`["validate", overrides|null, exp, [[ty,[props]]..], [[ty, site|null, [props], owner|null, [iface..], [hollow props]?]..]]`
+`["validate", overrides|null, exp, [[ty,[props],[hollow]?,[blank]?]..], [[ty, site|null, [props], owner|null, [iface..], [hollow props]?, [blank props]?]..]]`
   iface = `["d", name, kind]` | `["p", name, null | [[kind, owner|null]..]]`
   overrides = `{"svc": {ty: [min,num,sites,inst,[req],[forb],[iftypes]]}, "node": {ty: [[req],[forb]]}}`
   reply `[status, [site|null ..], specOK, specFull]`, status = "ok" | error kind; the two booleans are
@@ -37,11 +37,17 @@ def parseSvc (j : Json) : Option Svc := do
   | [ty, site, props, owner, ifs, hollow] =>
     pure { ty := ← ty.getStr?.toOption, site := ← optStr site, props := ← getStrs props,
            owner := ← optStr owner, ifs := ← (← arr? ifs).mapM parseSIface, hollow := ← getStrs hollow }
+  | [ty, site, props, owner, ifs, hollow, blank] =>
+    pure { ty := ← ty.getStr?.toOption, site := ← optStr site, props := ← getStrs props,
+           owner := ← optStr owner, ifs := ← (← arr? ifs).mapM parseSIface, hollow := ← getStrs hollow, blank := ← getStrs blank }
   | _ => none
 
 def parseNode (j : Json) : Option Node := do
-  let [ty, props] ← arr? j | none
-  pure { ty := ← ty.getStr?.toOption, props := ← getStrs props }
+  match ← arr? j with
+  | [ty, props] => pure { ty := ← ty.getStr?.toOption, props := ← getStrs props }
+  | [ty, props, hollow, blank] =>
+    pure { ty := ← ty.getStr?.toOption, props := ← getStrs props, hollow := ← getStrs hollow, blank := ← getStrs blank }
+  | _ => none
 
 def parseSvcRow (j : Json) : Option SvcRow := do
   let [a, b, c, d, r, f, t] ← arr? j | none
